@@ -49,6 +49,8 @@ class Paged(Lane):
         d = {'pages': pages, 'size': z3.ZeroExt(25, size), 'user_ctrl': bool(c.choose(2, 'user_ctrl')), 'user_paged': bool(c.choose(2, 'user_paged')) if npages == 1 else False,
              'opts': bool(c.choose(2, 'opts')), 'chained': self.chained and bool(c.choose(2, 'chained'))}
         c.assume(size >= 1)
+        # early finish while a later page is in flight: read page 1 and the first entry of page 2, then finish()
+        d['early'] = bool(npages >= 2 and len(pages[1]['entries']) >= 1 and not d['user_paged'] and c.choose(2, 'early'))
         return d
 
     def page_items(self, pg):
@@ -109,7 +111,8 @@ class Paged(Lane):
             start = poll(c, c.run_fn('SearchStream::start', [st, StrV(S('dc=x')), EnumV('Scope', 'OneLevel'), StrV(S('(a=b)')), VecV([StrV(S('cn'))])]))
             sv = start.fields[0] if start.variant == 'Ready' else None
             if sv is not None and sv.variant == 'Ok':
-                for _ in range(sum(len(p['entries']) for p in d['pages']) + 3):
+                ncalls = (len(d['pages'][0]['entries']) + 1) if d.get('early') else sum(len(p['entries']) for p in d['pages']) + 3
+                for _ in range(ncalls):
                     r = poll(c, c.run_fn('SearchStream::next', [st]))
                     if r.variant != 'Ready': got.append('pending'); break
                     v = r.fields[0]
@@ -137,6 +140,8 @@ class Paged(Lane):
             return [('a caller-supplied paging control is rejected when the search starts', z3.BoolVal(bool(good))), ('...before anything is sent', z3.BoolVal(len(o['requests']) == 0))]
         if sv is None or sv.variant != 'Ok':
             return [('the paged search starts', FALSE)]
+        if d.get('early'):
+            return self.oracle_early(d, o)
         obs = []
         want = [e for p in d['pages'] for e in p['entries']]
         ents = o['entries']
@@ -162,6 +167,21 @@ class Paged(Lane):
             obs.append(('the final result carries no paging control (other controls kept)', z3.BoolVal(noprc and len(res.fields['ctrls'].items) == nother)))
         return obs
 
+    def oracle_early(self, d, o):
+        """the caller stops reading while page 2 is in flight and calls finish()"""
+        reqs = o['requests']; obs = []
+        n1 = len(d['pages'][0]['entries'])
+        ents = o['entries']
+        obs.append(('the entries read before the early finish are page 1 followed by the first entry of page 2', z3.BoolVal(len(ents) == n1 + 1 and all(not isinstance(x, (str, tuple)) for x in ents))))
+        obs.append(('two search requests were issued when the caller stopped', z3.BoolVal(len(reqs) == 2)))
+        fin = o['finish']
+        if fin is not None and fin.variant == 'Ready':
+            obs.append(('finish() before the end of the result set yields the synthetic result 88', fin.fields[0].fields['rc'] == 88))
+        if len(reqs) == 2:
+            cur = reqs[1]['id']
+            obs.append(('the early finish scrubs exactly the ID of the page request in flight (so that it is released)', z3.BoolVal(len(o['scrubs']) == 1) if len(o['scrubs']) != 1 else o['scrubs'][0] == cur))
+        return obs
+
     # ---- native replay: same page script against the scripted peer
     def scenario(self, cd):
         pr_val = lambda cookie: ber.py_encode({'cl': 0, 'id': 16, 'c': [{'cl': 0, 'id': 2, 'p': [0]}, {'cl': 0, 'id': 4, 'p': cookie}]})
@@ -182,6 +202,20 @@ class Paged(Lane):
         return script(steps, server)
 
     def replay_by_role(self, cd, obname, out, model):
+        if cd.get('early'):
+            case = self.scenario(cd)
+            n1 = len(cd['pages'][0]['entries'])
+            steps = [s_ for s_ in case['steps'] if s_['do'] not in ('next', 'finish')] + [{'do': 'next'}] * (n1 + 1) + [{'do': 'finish'}, {'do': 'snapshot'}, {'do': 'delete', 'dn': 'dc=after'}]
+            # page 2 is left open at the server: no SearchResultDone for it
+            server = list(case['server'])
+            if len(server) >= 3: server[2] = {'replies': server[2]['replies'][:1]}
+            server = server[:3] + [{'replies': [{'id': 'req', 'op': okres(11, 6)}]}]
+            case = script(steps, server)
+            v = native([case])[0]['value']
+            sn = step(v, 'snapshot'); fin = step(v, 'finish'); bad = None
+            if sn and sn['inuse']: bad = f'after an early finish() on page 2 message IDs {sn["inuse"]} are still reserved'
+            elif not (isinstance(fin, dict) and fin.get('ok', {}).get('rc') == 88): bad = f'early finish() returned {json.dumps(fin)[:80]}'
+            return bool(bad), 'paged:early-finish', f'PagedResults finished early on page 2: {bad}' if bad else None, case, {'native_steps': v['steps'][-4:]}
         case = self.scenario(cd)
         v = native([case])[0]['value']
         n = sum(len(p['entries']) for p in cd['pages'])
@@ -202,6 +236,18 @@ class Paged(Lane):
                 first = strip(v['requests'][1])
                 for k in range(2, nreq + 1):
                     if strip(v['requests'][k]) != first: bad = f'request {k} differs from the first one in base/scope/filter/attributes/options/other controls'
+                # the paging control of request k: the requested size and the cookie of page k-1
+                for k in range(1, nreq + 1):
+                    if bad: break
+                    t, _ = ber.py_decode(v['requests'][k])
+                    cs = t['c'][2]['c'] if len(t['c']) > 2 else []
+                    pc = [c_ for c_ in cs if bytes(c_['c'][0]['p']) == PR_OID.encode()]
+                    if len(pc) != 1: bad = f'request {k} carries {len(pc)} paging controls'; break
+                    val, _ = ber.py_decode(pc[0]['c'][-1]['p'])
+                    size = int.from_bytes(bytes(val['c'][0]['p']), 'big', signed=True); cookie = list(val['c'][1]['p'])
+                    wsize = max(1, iv(cd['size'])); wcookie = [] if k == 1 else [iv(x) for x in cd['pages'][k - 2]['cookie']]
+                    if size != wsize: bad = f'request {k} asks for a page size of {size} instead of the requested {wsize}'
+                    elif cookie != wcookie: bad = f'request {k} carries cookie {cookie} instead of {wcookie}'
                 if not bad and isinstance(fin, dict) and any(cc.get('known') == 'PagedResults' for cc in fin.get('ok', {}).get('ctrls', [])): bad = 'the final result still carries the paging control'
         return bool(bad), 'paged:' + obname[:50], f'PagedResults over {len(cd["pages"])} page(s): {bad}' if bad else None, case, {'native_steps': v['steps'][-4:], 'requests': len(v['requests'])}
 
@@ -243,10 +289,10 @@ class Paged(Lane):
                 'final_ctrls': len(fin.fields[0].fields['ctrls'].items) if rc is not None else None}
 
     def in_summary(self, d, model=None):
-        return {'pages': [len(p['entries']) for p in d['pages']], 'user_ctrl': d['user_ctrl'], 'user_paged': d['user_paged'], 'opts': d['opts'], 'chained': d['chained']}
+        return {'pages': [len(p['entries']) for p in d['pages']], 'user_ctrl': d['user_ctrl'], 'user_paged': d['user_paged'], 'opts': d['opts'], 'chained': d['chained'], 'early_finish': d.get('early')}
 
     def regions(self, d, out):
-        return [f'pages={len(d["pages"])}'] + (['chained'] if d['chained'] else []) + (['user-paged'] if d['user_paged'] else [])
+        return [f'pages={len(d["pages"])}'] + (['chained'] if d['chained'] else []) + (['user-paged'] if d['user_paged'] else []) + (['early-finish'] if d.get('early') else [])
 
 
 def body(chk):
@@ -254,7 +300,7 @@ def body(chk):
     p = (3, 1, True) if quick else tier_param('C16', (4, 1, True))
     run_lane(chk, Paged, p, bounds={'pages': f'1..{p[0]}', 'entries per page': f'0..{p[1]} (incl. an empty first page)', 'cookies': ('1' if p[1] <= 1 else '1..2') + ' symbolic byte(s) each, consecutive pages may return the same cookie; empty on the last page',
                                     'page size': '1..127 symbolic', 'other request controls / search options / other response controls': 'present or absent', 'chaining': 'alone or behind EntriesOnly'},
-             selftest=True, need_regions=('pages=1', 'pages=3', 'chained', 'user-paged'))
+             selftest=True, need_regions=('pages=1', 'pages=3', 'chained', 'user-paged', 'early-finish'))
     if not quick:
         p2 = tier_param('C16B', (3, 2, True))
         run_lane(chk, Paged, p2, bounds={'pages': f'1..{p2[0]}', 'entries per page': f'0..{p2[1]}', 'cookies': '1..2 symbolic bytes each, consecutive pages may return the same cookie; empty on the last page', 'page size': '1..127 symbolic',
